@@ -3,6 +3,7 @@
 package cedar
 
 import (
+	"bytes"
 	"sort"
 
 	"github.com/cedar-policy/cedar-go/ast"
@@ -81,8 +82,21 @@ func VerifC20_History() {
 	req := Request{Principal: types.NewEntityUID("U", "u"), Action: types.NewEntityUID("Action", "x"), Resource: types.NewEntityUID("R", "r"), Context: types.NewRecord(ctx)}
 	ps := NewPolicySet()
 	model := map[PolicyID]int{}
+	// after a JSON load the set holds decoded copies: compared by their Cedar text
+	loaded := false
+	same := func(p *Policy, k int) bool {
+		if p == nil {
+			return false
+		}
+		if !loaded {
+			return p == pols[k].pol
+		}
+		return bytes.Equal(p.MarshalCedar(), pols[k].pol.MarshalCedar())
+	}
+	var saved []byte
+	var savedModel map[PolicyID]int
 	for s := 0; s < steps; s++ {
-		switch vrt.Choice("op", 7) {
+		switch vrt.Choice("op", 9) {
 		case 0: // add / replace
 			id := ids[vrt.Choice("id", len(ids))]
 			k := vrt.Choice("policy", len(pols))
@@ -105,14 +119,14 @@ func VerifC20_History() {
 			vrt.Cover("C20.get")
 			vrt.Assert("C20.get.presence", (p != nil) == existed)
 			if existed {
-				vrt.Assert("C20.get.identity", p == pols[k].pol)
+				vrt.Assert("C20.get.identity", same(p, k))
 			}
 		case 3: // copy and mutate the copy
 			m := ps.Map()
 			vrt.Cover("C20.map")
 			vrt.Assert("C20.map.size", len(m) == len(model))
 			for id, k := range model {
-				vrt.Assert("C20.map.entry", m[id] == pols[k].pol)
+				vrt.Assert("C20.map.entry", same(m[id], k))
 			}
 			m["zz"] = pols[0].pol
 			delete(m, "a")
@@ -121,7 +135,7 @@ func VerifC20_History() {
 			n := 0
 			for id, p := range ps.All() {
 				k, ok := model[id]
-				vrt.Assert("C20.all.entry", ok && p == pols[k].pol)
+				vrt.Assert("C20.all.entry", ok && same(p, k))
 				n++
 			}
 			vrt.Cover("C20.all")
@@ -157,6 +171,43 @@ func VerifC20_History() {
 			}
 			// authorization depends only on the contents
 			c20CheckAuthorize(ps2, model2, pols, bits, req, "reloaded")
+		case 7: // JSON snapshot: ids are preserved, a fresh set decodes to the same contents
+			b, err := ps.MarshalJSON()
+			vrt.Cover("C20.json-save")
+			vrt.Assert("C20.json.encodes", err == nil)
+			var ps3 PolicySet
+			vrt.Assert("C20.json.decodes", ps3.UnmarshalJSON(b) == nil)
+			n := 0
+			for id, p := range ps3.All() {
+				k, ok := model[id]
+				vrt.Assert("C20.json.entry", ok && bytes.Equal(p.MarshalCedar(), pols[k].pol.MarshalCedar()))
+				n++
+			}
+			vrt.Assert("C20.json.count", n == len(model))
+			c20CheckAuthorize(&ps3, model, pols, bits, req, "json")
+			saved = b
+			savedModel = map[PolicyID]int{}
+			for id, k := range model {
+				savedModel[id] = k
+			}
+		case 8: // load the snapshot into the live set: its contents replace whatever the set held
+			if saved == nil {
+				vrt.Assume(false)
+			}
+			vrt.Cover("C20.json-load")
+			vrt.Assert("C20.json.load-decodes", ps.UnmarshalJSON(saved) == nil)
+			model = map[PolicyID]int{}
+			for id, k := range savedModel {
+				model[id] = k
+			}
+			loaded = true
+			n := 0
+			for id, p := range ps.All() {
+				k, ok := model[id]
+				vrt.Assert("C20.json.load-entry", ok && same(p, k))
+				n++
+			}
+			vrt.Assert("C20.json.load-count", n == len(model))
 		}
 	}
 	c20CheckAuthorize(ps, model, pols, bits, req, "final")
